@@ -26,7 +26,8 @@ CONSTANTS
     Subs, Pubs, Downs,   \* identities of Subscribe / Publish / Shutdown calls
     None,                \* a value that is none of the above
     PubAfter,            \* [Pubs -> Pubs \cup {None}]: the call that must have returned before this one starts
-    WithReplayer         \* TRUE: a recording replayer is configured; FALSE: Joe's no-op replayer
+    WithReplayer,        \* TRUE: a recording replayer is configured; FALSE: Joe's no-op replayer
+    RCap                 \* capacity of the replayer at the start (0: large enough for everything)
 
 VARIABLES
     \* ---- the loop
@@ -62,6 +63,7 @@ VARIABLES
     ppc,       \* "idle" "p1" "pw" "r_closed" "ret"
     ptop, prep, pret,
     accepted,  \* the order in which the loop took the messages
+    lastPutOK, \* per accepted message: its Put succeeded (ghost)
     \* ---- Shutdown calls
     kpc,       \* "idle" "k1" "k2" "kw" "r_nil" "r_closed" "r_ctx" "ret"
     kctx,      \* Shutdown calls whose context is (already) done
@@ -71,21 +73,21 @@ VARIABLES
 
 loopVars == <<lpc, cur, reg, sentCur, fanCur, fanStage, repl, stored, rcap, lastPut, repErr, rrem, rfail, rsent, rendv>>
 subVars  == <<spc, stop, lastid, canc, dbuf, dclosed, errOcc, got, rgot, unfl, regAt, lidKnown, mustGet>>
-pubVars  == <<ppc, ptop, prep, pret, accepted>>
+pubVars  == <<ppc, ptop, prep, pret, accepted, lastPutOK>>
 downVars == <<kpc, kctx, att, okd, jclosed>>
 ghost    == <<panicked, late>>
 vars == <<loopVars, subVars, pubVars, downVars, ghost>>
 
 Init ==
     /\ lpc = "init" /\ cur = None /\ reg = {} /\ sentCur = {} /\ fanCur = None /\ fanStage = ""
-    /\ repl = (IF WithReplayer THEN "alive" ELSE "none") /\ stored = <<>> /\ rcap = 0 /\ lastPut = "" /\ repErr = FALSE
+    /\ repl = (IF WithReplayer THEN "alive" ELSE "none") /\ stored = <<>> /\ rcap = RCap /\ lastPut = "" /\ repErr = FALSE
     /\ rrem = <<>> /\ rfail = FALSE /\ rsent = FALSE /\ rendv = ""
     /\ spc = [s \in Subs |-> "idle"] /\ stop = [s \in Subs |-> {}] /\ lastid = [s \in Subs |-> None]
     /\ canc = {} /\ dbuf = [s \in Subs |-> "none"] /\ dclosed = {} /\ errOcc = {}
     /\ got = [s \in Subs |-> <<>>] /\ rgot = [s \in Subs |-> <<>>] /\ unfl = {}
     /\ regAt = [s \in Subs |-> -1] /\ lidKnown = [s \in Subs |-> FALSE] /\ mustGet = [s \in Subs |-> {}]
     /\ ppc = [p \in Pubs |-> "idle"] /\ ptop = [p \in Pubs |-> {}] /\ prep = [p \in Pubs |-> "no"] /\ pret = [p \in Pubs |-> ""]
-    /\ accepted = <<>>
+    /\ accepted = <<>> /\ lastPutOK = <<>>
     /\ kpc = [k \in Downs |-> "idle"] /\ kctx = {} /\ att = {} /\ okd = None /\ jclosed = FALSE
     /\ panicked = FALSE /\ late = FALSE
 
@@ -240,7 +242,7 @@ LoopRegister(s) ==
 \* ---- case msg := <-j.message  (rendezvous with Publish)
 LoopMsg(p) ==
     /\ lpc = "sel" /\ ppc[p] = "p1"
-    /\ lpc' = "msg" /\ cur' = p /\ ppc' = [ppc EXCEPT ![p] = "pw"] /\ accepted' = Append(accepted, p)
+    /\ lpc' = "msg" /\ cur' = p /\ ppc' = [ppc EXCEPT ![p] = "pw"] /\ accepted' = Append(accepted, p) /\ lastPutOK' = Append(lastPutOK, FALSE)
     /\ lastPut' = "" /\ repErr' = FALSE /\ sentCur' = {}
     /\ UNCHANGED <<reg, fanCur, fanStage, repl, stored, rcap, rrem, rfail, rsent, rendv, subVars, ptop, prep, pret, downVars, ghost>>
 
@@ -250,14 +252,15 @@ Put(p, v) ==
     /\ stored' = IF v = "ok" THEN Window(Append(stored, p)) ELSE stored
     /\ rcap' = rcap
     /\ repl' = IF v = "panic" THEN "dead" ELSE repl
-    /\ UNCHANGED <<cur, reg, sentCur, fanCur, fanStage, repErr, rrem, rfail, rsent, rendv, subVars, pubVars, downVars, ghost>>
+    /\ lastPutOK' = [lastPutOK EXCEPT ![Len(lastPutOK)] = (v = "ok")]
+    /\ UNCHANGED <<cur, reg, sentCur, fanCur, fanStage, repErr, rrem, rfail, rsent, rendv, subVars, ppc, ptop, prep, pret, accepted, downVars, ghost>>
 
 \* msg.replayerErr <- err: only a Put error (not a panic) is handed to Publish
 ReplyErr(p) ==
     /\ lpc = "msgput" /\ cur = p /\ lastPut = "err" /\ ~repErr
     /\ repErr' = TRUE
     /\ prep' = [prep EXCEPT ![p] = "puterr"]     \* the channel is buffered: Publish may return from here on
-    /\ UNCHANGED <<lpc, cur, reg, sentCur, fanCur, fanStage, repl, stored, rcap, lastPut, rrem, rfail, rsent, rendv, subVars, ppc, ptop, pret, accepted, downVars, ghost>>
+    /\ UNCHANGED <<lpc, cur, reg, sentCur, fanCur, fanStage, repl, stored, rcap, lastPut, rrem, rfail, rsent, rendv, subVars, ppc, ptop, pret, accepted, lastPutOK, downVars, ghost>>
 
 \* close(msg.replayerErr): Publish may return; the fan-out starts
 Reply(p) ==
@@ -266,7 +269,7 @@ Reply(p) ==
        \/ lpc = "msgput" /\ (lastPut = "err" => repErr)
     /\ prep' = [prep EXCEPT ![p] = IF @ = "no" THEN "nil" ELSE @]
     /\ lpc' = "fan"
-    /\ UNCHANGED <<cur, reg, sentCur, fanCur, fanStage, repl, stored, rcap, lastPut, repErr, rrem, rfail, rsent, rendv, subVars, ppc, ptop, pret, accepted, downVars, ghost>>
+    /\ UNCHANGED <<cur, reg, sentCur, fanCur, fanStage, repl, stored, rcap, lastPut, repErr, rrem, rfail, rsent, rendv, subVars, ppc, ptop, pret, accepted, lastPutOK, downVars, ghost>>
 
 \* done <- err for a subscriber whose Send or Flush failed in the fan-out
 LoopFail(s) ==
@@ -308,19 +311,19 @@ LoopExit ==
 CallPub(p, topics) ==
     /\ ppc[p] = "idle" /\ (PubAfter[p] # None => ppc[PubAfter[p]] = "ret")
     /\ ppc' = [ppc EXCEPT ![p] = "p1"] /\ ptop' = [ptop EXCEPT ![p] = topics]
-    /\ UNCHANGED <<loopVars, subVars, prep, pret, accepted, downVars, ghost>>
+    /\ UNCHANGED <<loopVars, subVars, prep, pret, accepted, lastPutOK, downVars, ghost>>
 
 PubClosed(p) ==
     /\ ppc[p] = "p1" /\ JDone
     /\ ppc' = [ppc EXCEPT ![p] = "r_closed"]
-    /\ UNCHANGED <<loopVars, subVars, ptop, prep, pret, accepted, downVars, ghost>>
+    /\ UNCHANGED <<loopVars, subVars, ptop, prep, pret, accepted, lastPutOK, downVars, ghost>>
 
 \* Publish returns: the Put error if there was one (C17), ErrProviderClosed if refused
 RetPub(p, v) ==
     /\ \/ ppc[p] = "pw" /\ prep[p] # "no" /\ v = prep[p]
        \/ ppc[p] = "r_closed" /\ v = "closed"
     /\ ppc' = [ppc EXCEPT ![p] = "ret"] /\ pret' = [pret EXCEPT ![p] = v]
-    /\ UNCHANGED <<loopVars, subVars, ptop, prep, accepted, downVars, ghost>>
+    /\ UNCHANGED <<loopVars, subVars, ptop, prep, accepted, lastPutOK, downVars, ghost>>
 
 -----------------------------------------------------------------------------
 (* Shutdown                                                                *)
@@ -395,9 +398,9 @@ Flushed == lpc = "sel" => unfl = {}
 \* reordering at the boundary, whatever Publish calls run concurrently
 Resume ==
     \A s \in Subs :
-        (regAt[s] >= 0 /\ lidKnown[s] /\ rcap = 0) =>
-            LET all == SelectSeq(SubSeq(stored, IndexOf(lastid[s], stored) + 1, Len(stored)), LAMBDA p : Match(s, p))
-            IN IsPrefix(rgot[s] \o got[s], all) \/ repl # "alive" \/ \E i \in 1..Len(accepted) : ~InSeq(accepted[i], stored)
+        (regAt[s] >= 0 /\ lidKnown[s] /\ repl = "alive" /\ \A i \in 1..Len(accepted) : lastPutOK[i]) =>
+            LET all == SelectSeq(SubSeq(accepted, IndexOf(lastid[s], accepted) + 1, Len(accepted)), LAMBDA p : Match(s, p))
+            IN IsPrefix(rgot[s] \o got[s], all)
 NoDuplicates == \A s \in Subs : LET d == rgot[s] \o got[s] IN \A i, j \in 1..Len(d) : i # j => d[i] # d[j]
 \* C17: a failing subscriber or replayer affects nobody else: Delivery / Complete above quantify over every
 \* subscriber that has not itself failed, whatever the others do; a Put error reaches that Publish and nobody
